@@ -282,6 +282,24 @@ type BadTagged struct {
 	N  int            `json:"n" jsonschema:"a number"`
 }
 
+// Named unsupported types that occur several times in one type (pruned with IgnoreInvalidTypes, never a "cycle").
+type NamedFunc func()
+type NamedChan chan int
+type NamedComplex complex128
+type TwiceBad struct {
+	A  NamedFunc            `json:"a"`
+	B  NamedFunc            `json:"b,omitempty"`
+	C  []NamedChan          `json:"c"`
+	D  map[string]NamedChan `json:"d"`
+	E  *NamedComplex        `json:"e"`
+	F  NamedComplex         `json:"f"`
+	N  int                  `json:"n"`
+	In struct {
+		G NamedFunc `json:"g"`
+		M string    `json:"m"`
+	} `json:"in"`
+}
+
 // Malformed jsonschema tags: For must return an error.
 type BadTagEmpty struct {
 	A int `json:"a" jsonschema:""`
@@ -324,7 +342,7 @@ var WithStd = []reflect.Type{reflect.TypeFor[StdTypes](), reflect.TypeFor[Repeat
 var Recursive = []reflect.Type{reflect.TypeFor[Rec](), reflect.TypeFor[RecSlice](), reflect.TypeFor[RecMap](), reflect.TypeFor[MutA](), reflect.TypeFor[MutB](), reflect.TypeFor[RecDeep](), reflect.TypeFor[[]*Rec](), reflect.TypeFor[map[string]MutA]()}
 
 // Unsupported types must make For return an error, or be pruned with IgnoreInvalidTypes.
-var Unsupported = []reflect.Type{reflect.TypeFor[BadChan](), reflect.TypeFor[BadFunc](), reflect.TypeFor[BadComplex](), reflect.TypeFor[BadMapKey](), reflect.TypeFor[BadDeep](), reflect.TypeFor[BadTagged](), reflect.TypeFor[[]BadTagged](), reflect.TypeFor[chan int](), reflect.TypeFor[func()](),
+var Unsupported = []reflect.Type{reflect.TypeFor[BadChan](), reflect.TypeFor[BadFunc](), reflect.TypeFor[BadComplex](), reflect.TypeFor[BadMapKey](), reflect.TypeFor[BadDeep](), reflect.TypeFor[BadTagged](), reflect.TypeFor[[]BadTagged](), reflect.TypeFor[TwiceBad](), reflect.TypeFor[[]*TwiceBad](), reflect.TypeFor[map[string]TwiceBad](), reflect.TypeFor[NamedFunc](), reflect.TypeFor[[2]NamedChan](), reflect.TypeFor[chan int](), reflect.TypeFor[func()](),
 	reflect.TypeFor[complex64](), reflect.TypeFor[map[int]int](), reflect.TypeFor[[]chan int](), reflect.TypeFor[map[string]func()](), reflect.TypeFor[*BadChan]()}
 
 // Embeddable are struct types safe to embed into reflect-built structs (distinct JSON names).
